@@ -102,7 +102,10 @@ Inductive obs :=
 | DataIs (p c : N)                   (* Probe: the function data is the value of write (p, c) *)
 | DataNone                           (* Probe: the function data was never written *)
 | Sent (p k : N)                     (* any other datagram written to peer p (never expected) *)
-| Drift.                             (* the function data changed without a data-change event (never expected) *)
+| Drift                              (* the function data changed without a data-change event (never expected) *)
+| Stuck (k : N).                     (* a call into the stack did not return within the watchdog's bound (never expected);
+                                        k = kind of step: 1 inbound write, 2 verdict lookup, 3 verdict commit, 5 timer body,
+                                        6 RemoveRemoteDevice, 7 bookkeeping accessor *)
 
 Definition E_TIMEOUT : N := 1.       (* model.ErrorNumberTypeGeneralError, NewErrorTypeFromString *)
 Definition E_DENIED : N := 7.        (* the error number the denying callbacks of the harness pass *)
@@ -304,7 +307,7 @@ Definition run_pinned := run_gen pinned.
         7                 Probe
    obs: 0 Skipped, 1 cb p c Presented, 2 p c e Result, 3 p c Applied, 4 Parked, 5 Returned,
         6 TimerFired, 7 NoTimer, 8 p n PendingLeft, 9 p c PendingEntry, 10 p c n TallyEntry,
-        11 p c DataIs, 12 DataNone, 13 p k Sent, 14 Drift.
+        11 p c DataIs, 12 DataNone, 13 p k Sent, 14 Drift, 15 k Stuck.
    Within one operation the observations are listed in ascending order of this encoding. *)
 Definition parse_op (l : list Z) : option op :=
   match l with
@@ -336,6 +339,7 @@ Definition print_obs (o : obs) : list Z :=
   | DataNone => [12]
   | Sent p k => [13; Zn p; Zn k]
   | Drift => [14]
+  | Stuck k => [15; Zn k]
   end.
 
 Definition parse_obs (l : list Z) : option obs :=
@@ -355,5 +359,6 @@ Definition parse_obs (l : list Z) : option obs :=
   | [12] => Some DataNone
   | [13; p; k] => Some (Sent (Nz p) (Nz k))
   | [14] => Some Drift
+  | [15; k] => Some (Stuck (Nz k))
   | _ => None
   end.
